@@ -11,6 +11,7 @@ Abs(cs) == [abs |-> TRUE, comps |-> cs]
 (* spellings of P/x, P/s/x, P/xx, P/y and look-alikes (u1/u2: the same text in NFC and NFD, X: another case) *)
 Pool == { Rel(<<"x">>), Rel(<<".", "x">>), Rel(<<"s", "..", "x">>), Rel(<<"..", "x">>), Rel(<<"s", "x">>),
           Rel(<<"xx">>), Rel(<<"y">>), Rel(<<"..", "s", "x">>), Rel(<<"u1">>), Rel(<<"u2">>), Rel(<<"X">>),
+          Rel(<<"s", "", "x">>), Rel(<<"x", "">>), Abs(<<"P", "", "s", "x">>),     \* "s//x", "x/", "/P//s/x"
           Abs(<<"P", "x">>), Abs(<<"P", ".", "x">>), Abs(<<"P", "s", "..", "x">>), Abs(<<"P", "s", "x">>),
           Abs(<<"P", "s", ".", "..", "y">>) }
 Small(S) == {x \in SUBSET S : Cardinality(x) <= MaxIO}
